@@ -138,6 +138,13 @@ int read_uf2(const char *filename, Memory *memory)
       //printf("extension tags present\n");
     }
 
+    // The payload of a UF2 block can hold at most 476 bytes.
+    if (uf2_block.byte_count > sizeof(uf2_block.data))
+    {
+      printf("Error: UF2 block with a payload of %u bytes.\n", uf2_block.byte_count);
+      return -1;
+    }
+
     for (uint32_t n = 0; n < uf2_block.byte_count; n++)
     {
       memory->write8(address++, uf2_block.data[n]);
